@@ -13,7 +13,7 @@
 From Coq.Strings Require Import String.
 From Coq Require Import List Bool ZArith NArith.
 From Coq.Strings Require Import Byte.
-From Verif Require Import Base.Bytes Idl.Ast Idl.AstUtil Idl.Consts Idl.ConstsFacts.
+From Verif Require Import Base.Bytes Idl.Ast Idl.AstUtil Idl.Consts Idl.ConstsFacts Idl.ConstsFuel.
 Import ListNotations.
 Local Open Scope Z_scope.
 Local Open Scope consts_scope.
@@ -364,6 +364,26 @@ Theorem C06_go_double_agree :
   forall b, dbl_is_zero b = false -> go_double go_rules b = go_double idl_rules b.
 Proof. exact go_double_agree. Qed.
 Print Assumptions C06_go_double_agree.
+
+(* ------------------------------------------------------------------ fuel *)
+
+(* The fuel is only a termination device: once the evaluator answers with a value, every
+   larger fuel gives the same value, so the value of an initializer is a function of the
+   program alone (the theorems above that speak of [S n] hold for every sufficient fuel). *)
+Theorem C06_eval_fuel_mono :
+  forall q n m p vf tf t c v, (n <= m)%nat -> eval q n p vf tf t c = Ok v -> eval q m p vf tf t c = Ok v.
+Proof. exact eval_fuel_mono. Qed.
+Print Assumptions C06_eval_fuel_mono.
+
+Theorem C06_eval_fuel_irrelevant :
+  forall q n m p vf tf t c v w, eval q n p vf tf t c = Ok v -> eval q m p vf tf t c = Ok w -> v = w.
+Proof. exact eval_fuel_irrelevant. Qed.
+Print Assumptions C06_eval_fuel_irrelevant.
+
+Theorem C06_new_struct_fuel_mono :
+  forall q n m p f s x, (n <= m)%nat -> new_struct q n p f s = Ok x -> new_struct q m p f s = Ok x.
+Proof. exact new_struct_fuel_mono. Qed.
+Print Assumptions C06_new_struct_fuel_mono.
 
 (* ------------------------------------------------------------------ the hypotheses are satisfiable *)
 
